@@ -142,6 +142,7 @@ class Ctx:
         self.axioms = []
         self.__dict__.pop("log_calls", None)
         self.__dict__.pop("_mono", None)
+        self.__dict__.pop("sstrs", None)
 
 
 def ctx() -> Ctx:
@@ -468,6 +469,8 @@ class _SymMixin:
         raise NotEncodable("hash() of a symbolic number: no small value is consistent with the path")
 
     def __str__(self) -> str:
+        if STR_MODEL[0]:
+            return SStr(self)
         raise NotEncodable("str() of a symbolic number")
 
     def __format__(self, spec: str) -> str:
@@ -623,6 +626,89 @@ for _name in dir(Decimal):
         continue
     if callable(getattr(Decimal, _name)) and _name not in ("real", "imag", "conjugate", "from_float"):
         setattr(SDec, _name, _refuse(_name))
+
+
+# --------------------------------------------------------------------------------------
+# the text of a symbolic number (opt-in): what a decoder does with str(x)
+
+STR_MODEL = [False]
+
+_DIG = z3.Range("0", "9")
+_NAT = z3.Union(z3.Re("0"), z3.Concat(z3.Range("1", "9"), z3.Star(_DIG)))
+_SIGN_OPT = z3.Option(z3.Re("-"))
+# str(Decimal) of a finite value: -?int[.frac][E+-exp]
+DEC_TEXT = z3.Concat(_SIGN_OPT, _NAT, z3.Option(z3.Concat(z3.Re("."), z3.Plus(_DIG))),
+                     z3.Option(z3.Concat(z3.Re("E"), z3.Union(z3.Re("+"), z3.Re("-")), z3.Plus(_DIG))))
+INT_TEXT = z3.Concat(_SIGN_OPT, _NAT)
+# repr(float) of a finite value: -?int.frac | -?int[.frac]e+-exp
+FLOAT_TEXT = z3.Concat(_SIGN_OPT, _NAT, z3.Union(
+    z3.Concat(z3.Re("."), z3.Plus(_DIG)),
+    z3.Concat(z3.Option(z3.Concat(z3.Re("."), z3.Plus(_DIG))), z3.Re("e"),
+              z3.Union(z3.Re("+"), z3.Re("-")), z3.Plus(_DIG))))
+_WS = z3.Star(z3.Union(z3.Re(" "), z3.Re("\t"), z3.Re("\n")))
+# what int(text) accepts (ASCII): optional blanks, sign, digits with single underscores between them
+INT_ACCEPTS = z3.Concat(_WS, z3.Option(z3.Union(z3.Re("+"), z3.Re("-"))), z3.Plus(_DIG),
+                        z3.Star(z3.Concat(z3.Re("_"), z3.Plus(_DIG))), _WS)
+
+
+class SStr(str):
+    """str(x) of a proxy x: a z3 String constrained to the language CPython prints for x's numeric
+    type.  Only what a decoder does with such a text is modelled -- isinstance(.., str),
+    Decimal(text), float(text), int(text) (which forks on whether the text is an integer literal);
+    every other string operation is refused."""
+
+    def __new__(cls, origin: Any) -> "SStr":
+        obj = str.__new__(cls, "<text of a symbolic number>")
+        c = ctx()
+        obj.origin = origin
+        obj.kind = kind_of(origin)
+        n = len(c.__dict__.setdefault("sstrs", []))
+        obj.s = z3.String(f"text!{n}")
+        c.sstrs.append(obj)
+        lang = {"dec": DEC_TEXT, "int": INT_TEXT, "float": FLOAT_TEXT}[obj.kind]
+        c.axiom(z3.InRe(obj.s, lang))
+        c.stubs_used.add("str(x): a text in the language CPython prints for x's numeric type; "
+                         "Decimal(str(x)) == x, float(repr(x)) == x, int(str(x)) == x are taken from their documentation")
+        return obj
+
+    def __str__(self) -> str:
+        return self
+
+    def __repr__(self) -> str:
+        return f"<SStr {self.s} of {self.origin!r}>"
+
+    def to_decimal(self) -> Any:
+        return SDec(real(self.origin.t))
+
+    def to_float(self) -> Any:
+        return SReal(real(self.origin.t))
+
+    def to_int(self) -> Any:
+        """int(text): accepted exactly when the text is an integer literal; then the value printed
+        was integral."""
+        c = ctx()
+        if c.decide(z3.InRe(self.s, INT_ACCEPTS)):
+            n = c.fresh("int_of_text", "int")
+            c.axiom(z3.ToReal(n) == real(self.origin.t))
+            return SInt(n)
+        raise ValueError("invalid literal for int() with base 10: <text of a symbolic number>")
+
+
+def _refuse_str(name: str) -> Any:
+    def method(self: Any, *a: Any, **k: Any) -> Any:
+        raise NotEncodable(f"str.{name} on the text of a symbolic number has no model")
+    method.__name__ = name
+    return method
+
+
+for _name in dir(str):
+    if _name in ("__new__", "__init__", "__class__", "__str__", "__repr__", "__getattribute__",
+                 "__setattr__", "__delattr__", "__dir__", "__doc__", "__init_subclass__",
+                 "__subclasshook__", "__reduce__", "__reduce_ex__", "__sizeof__", "__getnewargs__",
+                 "__getstate__"):
+        continue
+    if callable(getattr(str, _name)):
+        setattr(SStr, _name, _refuse_str(_name))
 
 
 # --------------------------------------------------------------------------------------
@@ -831,6 +917,8 @@ class DecimalShim(metaclass=_DecimalShimMeta):
     """`Decimal(x)` that passes proxies through exactly (Decimal(float) is exact)."""
 
     def __new__(cls, value: Any = "0", context: Any = None) -> Any:  # type: ignore
+        if isinstance(value, SStr):
+            return value.to_decimal()
         if is_sym(value):
             if Ctx.current is not None:
                 Ctx.current.stubs_used.add("Decimal(x): exact conversion of a proxy")
@@ -845,6 +933,8 @@ class _FloatShimMeta(type):
 
 class FloatShim(metaclass=_FloatShimMeta):
     def __new__(cls, value: Any = 0.0) -> Any:  # type: ignore
+        if isinstance(value, SStr):
+            return value.to_float()
         if is_sym(value):
             if Ctx.current is not None:
                 Ctx.current.stubs_used.add("float(x): exact conversion of a proxy")
@@ -859,6 +949,8 @@ class _IntShimMeta(type):
 
 class IntShim(metaclass=_IntShimMeta):
     def __new__(cls, value: Any = 0, *a: Any) -> Any:  # type: ignore
+        if isinstance(value, SStr):
+            return value.to_int()
         if isinstance(value, SInt):
             return value
         if isinstance(value, (SReal, SDec)):
@@ -868,6 +960,26 @@ class IntShim(metaclass=_IntShimMeta):
             tr = z3.If(value.t >= 0, fl, z3.If(z3.ToReal(fl) == value.t, fl, fl + 1))
             return SInt(tr)
         return int(value, *a)
+
+
+def _isclose(a: Any, b: Any, *, rel_tol: Any = 1e-09, abs_tol: Any = 0.0) -> Any:
+    """math.isclose on finite operands (CPython: a == b, or |a-b| <= |rel_tol*b|, or
+    <= |rel_tol*a|, or <= abs_tol), as a symbolic boolean."""
+    if not any(is_sym(v) for v in (a, b, rel_tol, abs_tol)):
+        return _math.isclose(a, b, rel_tol=rel_tol, abs_tol=abs_tol)
+    ta, tb, tr, tt = (real(term(v)) if is_sym(v) else q(v) for v in (a, b, rel_tol, abs_tol))
+    diff = z3.If(tb - ta >= 0, tb - ta, ta - tb)
+    ab = lambda t: z3.If(t >= 0, t, -t)
+    return SBool(z3.Or(ta == tb, diff <= ab(tr * tb), diff <= ab(tr * ta), diff <= tt))
+
+
+def _copysign(x: Any, y: Any) -> Any:
+    """math.copysign returns a float; the sign of a zero y is taken as positive (proxies are reals)."""
+    tx = real(term(x)) if is_sym(x) else q(x)
+    mag = z3.If(tx >= 0, tx, -tx)
+    if not is_sym(y):
+        return SReal(mag if _math.copysign(1.0, y) > 0 else -mag)
+    return SReal(z3.If(real(term(y)) >= 0, mag, -mag))
 
 
 class MathShim:
@@ -887,6 +999,11 @@ class MathShim:
         self.fabs = lambda x: abs(x) if is_sym(x) else _math.fabs(x)
         self.floor = lambda x: x.__floor__() if is_sym(x) else _math.floor(x)
         self.ceil = lambda x: x.__ceil__() if is_sym(x) else _math.ceil(x)
+        self.isclose = _isclose
+        self.isfinite = lambda x: True if is_sym(x) else _math.isfinite(x)   # proxies range over the reals
+        self.isnan = lambda x: False if is_sym(x) else _math.isnan(x)
+        self.isinf = lambda x: False if is_sym(x) else _math.isinf(x)
+        self.copysign = lambda x, y: (_copysign(x, y) if (is_sym(x) or is_sym(y)) else _math.copysign(x, y))
 
     @staticmethod
     def _guard(name: str, fn: Any) -> Any:
